@@ -17,6 +17,12 @@ The token theorems quantify over every 24-byte RNG output (more generally every 
 that part of the statement is checked at run time only (several server starts: distinct tokens, length
 39, alphabet) and is labelled partial in checks/C18.json.
 
+Improvement round: the header map is a component of the request (`C18_outside_ignores_headers`,
+`C18_headers_only_acr`, `C18_other_header_irrelevant`, `C18_headers_only_preflight`), the wire level
+(`C18_wire`, `C18_wire_outside`: method token, request-target of any form read by the transcription of
+`http::Uri::from_shared`, HTTP version), the end-to-end statement from the RNG bytes to the response
+(`C18_end_to_end`), and histories over any number of connections (`C18_history_stateless`, `C18_history`).
+
 Only property theorems (names `C18_*`) and non-vacuity examples live in this file.
 -/
 open Server
@@ -170,11 +176,161 @@ request is treated as being under the secret prefix only if the request-target i
 with it — a token in the query string or fragment does not count. -/
 theorem C18_origin_form_literal (rest pfx p : List Char) (hp : pathOfTarget ('/' :: rest) = some p)
     (h : pfx <+: p) : pfx <+: '/' :: rest := by
-  have : p = ('/' :: rest).takeWhile (! isPathEnd ·) := by
-    simp only [pathOfTarget] at hp
-    exact (Option.some.inj hp).symm
-  rw [this] at h
-  exact List.IsPrefix.trans h (List.takeWhile_prefix _)
+  apply List.IsPrefix.trans h
+  unfold pathOfTarget at hp
+  split at hp
+  · cases hp
+  · cases rest with
+    | nil => simp only at hp; cases hp; exact List.prefix_refl _
+    | cons c r => simp only at hp; exact pathScan_prefix _ _ hp
+
+/-! ### "whatever the headers": the header map is a component of the request -/
+
+/-- Outside the secret prefix the outcome is a function of the method and the path alone: two requests
+with the same method and path get the same outcome whatever their header maps (`Origin`, `Host`,
+`Referer`, `Cookie`, `Authorization`, `Access-Control-Request-*`, any number of them, with or without
+the token in their values) and bodies are, and whatever the profile file is (only whether one is
+configured shows, in the wording of the landing page). -/
+theorem C18_outside_ignores_headers (cfg cfg' : Cfg) (req req' : Req)
+    (hpfx : cfg.pfx = cfg'.pfx) (hprof : cfg.profile.isSome = cfg'.profile.isSome)
+    (hm : req.method = req'.method) (hp : req.path = req'.path) (h : ¬ cfg.pfx <+: req.path) :
+    service cfg req = service cfg' req' := by
+  have hs := (stripPrefix_eq_none_iff cfg.pfx req.path).mpr h
+  have hs' : stripPrefix cfg'.pfx req'.path = none := by rw [← hpfx, ← hp]; exact hs
+  unfold service
+  rw [hs, hs', hm, hp, hprof]
+
+/-- Everywhere, the service function reads the header map through two look-ups only
+(`contains_key(Access-Control-Request-Method)`, first value of `Access-Control-Request-Headers`):
+header maps that agree on these two give the same outcome. -/
+theorem C18_headers_only_acr (cfg : Cfg) (req : Req) (hs : Headers)
+    (h1 : hdrContains hs acrmName = hdrContains req.headers acrmName)
+    (h2 : hdrGet hs acrhName = hdrGet req.headers acrhName) :
+    service cfg { req with headers := hs } = service cfg req :=
+  service_headers_congr cfg req hs h1 h2
+
+/-- No second credential channel: a header field whose name is not one of the two
+`Access-Control-Request-*` names (compared as `HeaderMap` does, ASCII-case-insensitively) can be
+inserted anywhere in, or removed from, any request without changing the outcome — whatever its value,
+in particular `Authorization: Bearer <token>`, `Referer: …/<token>/…`, `Cookie: token=<token>`,
+`X-Original-URL: /<token>/profile.json`, `Origin: <the profiler's own origin>`. -/
+theorem C18_other_header_irrelevant (cfg : Cfg) (req : Req) (a b : Headers) (n v : List Char)
+    (hn1 : hdrNameEq n acrmName = false) (hn2 : hdrNameEq n acrhName = false)
+    (hh : req.headers = a ++ (n, v) :: b) :
+    service cfg req = service cfg { req with headers := a ++ b } := by
+  symm
+  apply service_headers_congr
+  · unfold hdrContains; rw [hh, hdrGet_insert a b n v acrmName hn1]
+  · rw [hh, hdrGet_insert a b n v acrhName hn2]
+
+/-- Only a request with method `OPTIONS` has its headers looked at at all. -/
+theorem C18_headers_only_preflight (cfg : Cfg) (req : Req) (hs : Headers) (hm : req.method ≠ .options) :
+    service cfg { req with headers := hs } = service cfg req := by
+  obtain ⟨m, p, hs0, b⟩ := req
+  simp only at hm
+  unfold service
+  cases m <;> first | exact absurd rfl hm | rfl
+
+/-! ### from the bytes of the request line to the response; whole histories -/
+
+/-- Wire level, every form of request-target (origin-form, absolute-form, authority-form, `*`,
+malformed): if the answer to a request carries any `Access-Control-*` header, profile bytes or an API
+answer, or the connection is dropped, then the secret prefix stands literally in the request-target at
+the start of its path — the target begins with it, or is `<scheme>://<authority>` followed by it (any
+scheme: the `http` crate accepts `https://`, `ftp://`, `x+y://` … and hyper passes them on). Method
+token, HTTP version, headers and body are arbitrary. (Prefix = `"/"` + a non-empty token, as
+`start_server` builds it.) `pathOfTarget` is the transcription of `http::Uri::from_shared`. -/
+theorem C18_wire (cfg : Cfg) (w : WireReq) (hslash : cfg.pfx.head? = some '/') (hlen : 2 ≤ cfg.pfx.length)
+    (h : (serveWire cfg w).exposes = true) : LiteralUnder cfg.pfx w.target := by
+  unfold serveWire at h
+  by_cases hok : httparseTargetOk w.target = true
+  case neg => simp [hok, WireOut.exposes] at h
+  simp only [hok, Bool.not_true, Bool.false_eq_true, if_false] at h
+  cases hp : pathOfTarget w.target with
+  | none => rw [hp] at h; simp [WireOut.exposes] at h
+  | some p =>
+    rw [hp] at h
+    simp only at h
+    apply pathOfTarget_literal w.target p cfg.pfx hp hslash hlen
+    by_cases hpre : cfg.pfx <+: p
+    · exact hpre
+    · exfalso
+      obtain ⟨r, hr, hnc, hnd, _⟩ := C18_no_prefix cfg
+        { method := methodOfToken w.methodTok, path := p, headers := w.headers, bodyUtf8 := w.bodyUtf8 } hpre
+      rw [hr] at h
+      simp [WireOut.exposes, hnc, hnd] at h
+
+/-- A request that does not carry the prefix literally is answered, and the answer is hyper's own 400
+or the landing page / a 404 of the service function, without any `Access-Control-*` header. -/
+theorem C18_wire_outside (cfg : Cfg) (w : WireReq) (hslash : cfg.pfx.head? = some '/')
+    (hlen : 2 ≤ cfg.pfx.length) (h : ¬ LiteralUnder cfg.pfx w.target) :
+    serveWire cfg w = .rejected ∨
+    ∃ r, serveWire cfg w = .resp r ∧ r.anyCors = false ∧
+      (r.kind = .landing cfg.profile.isSome ∨ (r.kind = .notFound ∧ r.status = 404)) := by
+  by_cases hok : httparseTargetOk w.target = true
+  case neg => left; simp [serveWire, hok]
+  cases hp : pathOfTarget w.target with
+  | none => left; simp [serveWire, hp]
+  | some p =>
+    right
+    have hpre : ¬ cfg.pfx <+: p := fun hpre => h (pathOfTarget_literal w.target p cfg.pfx hp hslash hlen hpre)
+    obtain ⟨r, hr, hnc, _, hk, _, h404⟩ := C18_no_prefix cfg
+      { method := methodOfToken w.methodTok, path := p, headers := w.headers, bodyUtf8 := w.bodyUtf8 } hpre
+    refine ⟨r, ?_, hnc, ?_⟩
+    · simp [serveWire, hok, hp, hr]
+    · rcases hk with hk | hk
+      · exact Or.inl hk
+      · exact Or.inr ⟨hk, h404 hk⟩
+
+/-- End to end, with the real prefix: for every 24-byte RNG output the server's prefix is `"/"` + 39
+alphabet characters, and with that prefix whatever is exposed at the wire level was asked for with the
+40 characters literally at the start of the path of the request-target. One statement from the RNG
+bytes to the response. -/
+theorem C18_end_to_end (rng : List UInt8) (h24 : rng.length = 24) (profile : Option ProfileFile) :
+    ∃ tok, pathPrefix rng = some ('/' :: tok) ∧ tok.length = 39 ∧ (∀ c ∈ tok, c ∈ alphabet) ∧
+      ∀ w : WireReq, (serveWire { pfx := '/' :: tok, profile := profile } w).exposes = true →
+        LiteralUnder ('/' :: tok) w.target := by
+  obtain ⟨tok, _, hlen, halpha, _, _, _, hpfx⟩ := C18_token_length rng h24
+  refine ⟨tok, hpfx, hlen, halpha, ?_⟩
+  intro w hw
+  exact C18_wire { pfx := '/' :: tok, profile := profile } w rfl (by simp [hlen]) hw
+
+/-- Histories: any number of connections, their requests interleaved in any order, against any
+configurations. Every answer is either "connection already over" or exactly what the request alone
+gets (`serveWire`): nothing an earlier request did — under the prefix or not, on the same connection
+or another — changes the answer to a later one. -/
+theorem C18_history_stateless (ops : List (Nat × Cfg × WireReq)) (dead : List Nat) (i : Nat) (o : WireOut)
+    (h : (serveCase dead ops)[i]? = some o) :
+    ∃ c cfg w, ops[i]? = some (c, cfg, w) ∧ (o = .closed ∨ o = serveWire cfg w) := by
+  induction ops generalizing dead i with
+  | nil => simp [serveCase] at h
+  | cons x rest ih =>
+    obtain ⟨c, cfg, w⟩ := x
+    cases i with
+    | zero =>
+      refine ⟨c, cfg, w, rfl, ?_⟩
+      simp only [serveCase, List.getElem?_cons_zero, Option.some.injEq] at h
+      rw [← h]
+      unfold serveStep
+      by_cases hd : c ∈ dead
+      · left; simp [hd]
+      · right; simp [hd]
+    | succ j =>
+      simp only [serveCase, List.getElem?_cons_succ] at h
+      exact ih _ j h
+
+/-- Consequently, in every history every exposing answer (CORS header, data, dropped connection)
+belongs to a request that itself carries the prefix literally. -/
+theorem C18_history (ops : List (Nat × Cfg × WireReq)) (dead : List Nat) (i : Nat) (o : WireOut)
+    (h : (serveCase dead ops)[i]? = some o) (he : o.exposes = true) :
+    ∃ c cfg w, ops[i]? = some (c, cfg, w) ∧
+      (cfg.pfx.head? = some '/' → 2 ≤ cfg.pfx.length → LiteralUnder cfg.pfx w.target) := by
+  obtain ⟨c, cfg, w, hi, ho⟩ := C18_history_stateless ops dead i o h
+  refine ⟨c, cfg, w, hi, ?_⟩
+  intro hslash hlen
+  rcases ho with ho | ho
+  · rw [ho] at he; simp [WireOut.exposes] at he
+  · rw [ho] at he; exact C18_wire cfg w hslash hlen he
 
 /-! ### Non-vacuity and boundary examples -/
 
@@ -184,7 +340,12 @@ def C18_demoBytes : List UInt8 := (List.range 24).map UInt8.ofNat
 def C18_demoCfg : Cfg := { pfx := "/tok3n".toList, profile := some ⟨false, true⟩ }
 
 private def rq (m : Method) (p : String) : Req :=
-  { method := m, path := p.toList, hasACRM := true, acrh := some "x".toList, bodyUtf8 := true }
+  { method := m, path := p.toList,
+    headers := [("Origin".toList, "http://evil.example".toList),
+                ("ACCESS-CONTROL-REQUEST-METHOD".toList, "POST".toList),
+                ("Access-Control-Request-Headers".toList, "x".toList),
+                ("Authorization".toList, "Bearer tok3n".toList)],
+    bodyUtf8 := true }
 
 -- the hypotheses of the theorems are satisfiable by non-trivial inputs
 example : C18_demoBytes.length = 24 := by decide
@@ -209,3 +370,46 @@ example : encode [0x47,0xb2,0xd8,0xf2,0x60,0xc2,0xd4,0x81,0x16,0x04,0x4b,0xc4,0x
     = some "0gvvikzi2b0hb83m62c3rdicj7".toList := by decide
 example : encode [0x1f,0x74,0xd7,0x47,0x29,0xab,0xdc,0x08,0xf4,0xf8,0x4e,0x8f,0x7f,0x8c,0x80,0x8c,
       0x8e,0xd9,0x2e,0xe5] = some "wlpdk3lch267z3sfz3s0ip5b553xfx0z".toList := by decide
+
+-- wire level and histories: hypotheses satisfiable, conclusions not vacuous
+private def wq (m t : String) (hs : Headers := []) (v11 : Bool := true) : WireReq :=
+  { methodTok := m.toList, target := t.toList, http11 := v11, headers := hs, bodyUtf8 := true }
+
+example : C18_demoCfg.pfx.head? = some '/' ∧ 2 ≤ C18_demoCfg.pfx.length := by decide
+-- exposed through absolute-form targets of any scheme; `get` is not `GET`; token in the query or a header
+-- opens nothing
+example : ∀ t ∈ ["http://h.example:80/tok3n/profile.json", "https://h/tok3n/profile.json", "HtTp://u:p@h/tok3n/profile.json",
+      "ftp://[::1]:21/tok3n/profile.json", "x+y.z://h/tok3n/profile.json?q#f", "://h/tok3n/profile.json"],
+    (serveWire C18_demoCfg (wq "GET" t)).exposes = true := by decide
+-- targets the URI parser rejects never reach the service function
+example : ∀ t ∈ ["http:///tok3n/profile.json", "http://h%41/tok3n/profile.json", "http://h@/tok3n/profile.json",
+      "http://a:b:c/tok3n/profile.json", "h:80/tok3n/profile.json", "/tok3n/profile.json<", "/tok3n/`", "?x", "",
+      "http://[::1/tok3n/profile.json", "/tok3n/\x7f"],
+    serveWire C18_demoCfg (wq "GET" t) = .rejected := by decide
+example : (serveWire C18_demoCfg (wq "get" "/tok3n/profile.json")).exposes = true := by decide
+example : ∀ t ∈ ["/?/tok3n/profile.json", "/profile.json?token=tok3n", "http://tok3n/profile.json",
+      "http://h.example?/tok3n/profile.json", "tok3n", "*", "h.example/tok3n/profile.json", "https://tok3n/",
+      "https://h//tok3n/profile.json", "ftp://h/x/../tok3n/profile.json"],
+    ∀ m ∈ ["GET", "POST", "OPTIONS", "get"],
+      (serveWire C18_demoCfg (wq m t [("Authorization".toList, "Bearer tok3n".toList),
+          ("Referer".toList, "http://127.0.0.1/tok3n/".toList),
+          ("access-control-request-method".toList, "GET".toList)])).exposes = false := by decide
+-- the first of two `Access-Control-Request-Headers` fields is echoed, names compare case-insensitively
+private def preflightTwice : Req :=
+  { method := .options, path := "/tok3n/x".toList, bodyUtf8 := true,
+    headers := [("ACCESS-control-request-METHOD".toList, "GET".toList),
+                ("access-control-request-headers".toList, "x-one".toList),
+                ("Access-Control-Request-Headers".toList, "x-two".toList)] }
+example : service C18_demoCfg preflightTwice =
+    .resp { status := 204, allowOrigin := true, allowMethods := true, maxAge := true,
+            allowHeaders := some "x-one".toList, allow := false, contentType := none, gzip := false,
+            kind := .options true } := by decide
+-- a history over two connections: a served request on connection 0 opens nothing on connection 1 nor
+-- later on connection 0; `Connection: close` and HTTP/1.0 end a connection, a 404 does not
+example : serveCase [] [(0, C18_demoCfg, wq "GET" "/tok3n/profile.json"), (1, C18_demoCfg, wq "GET" "/profile.json"),
+      (0, C18_demoCfg, wq "GET" "/profile.json" [("Connection".toList, "Close".toList)]),
+      (0, C18_demoCfg, wq "GET" "/tok3n/profile.json"),
+      (1, C18_demoCfg, wq "POST" "/symbolicate/v5" [] false), (1, C18_demoCfg, wq "GET" "/")] =
+    [.resp { Resp.base (.profile false) with allowOrigin := true, contentType := some .jsonUtf8 },
+     .resp { Resp.base .notFound with status := 404 }, .resp { Resp.base .notFound with status := 404 },
+     .closed, .resp { Resp.base .notFound with status := 404 }, .closed] := by decide
